@@ -23,6 +23,7 @@ fn main() {
             0
         }
         "c01" => c01::run(&rest),
+        "c01-big" => c01::run_big(&rest),
         "c02" => c02::run(&rest),
         "c02-race" => c02::run_race(&rest),
         "c03" => c03::run(&rest),
